@@ -1341,15 +1341,17 @@ def FrameSound (f : Facts) : Prop :=
     ∀ a m tr, obs (fun v => storageOfArm (pick v)) a m tr
       = obs (fun v => storageOfArm (pick v)) a m (solo a tr))
   ∧ (∀ d ∈ f.dataObjects, d.writable = some false ∧ d.tls = some false)
+  ∧ (f.hostInvokes ≠ [] ∧ ∀ i ∈ f.hostInvokes, i.retIsLocal = true ∧ i.clean = true)
 
 /-- **T7 `frame_sound`.** Under the decision, whichever arm of the code
 generator's match a slot variable takes (whatever its layout, whichever guard
-holds), its memory is private to the activation in every interleaving, and the
-JIT module holds no writable or thread-local data object at all. -/
+holds), its memory is private to the activation in every interleaving, the
+JIT module holds no writable or thread-local data object at all, and the return
+buffer the host hands to compiled code is a local of `RotoFunc::invoke`. -/
 theorem frame_sound (f : Facts) (h : slotsInFrame f = true) : FrameSound f :=
   ⟨fun pick hp a m tr =>
     frame_slots_private _ (fun v => slotsInFrame_arms f h (pick v) (hp v).1 (hp v).2) a m tr,
-   slotsInFrame_data f h⟩
+   slotsInFrame_data f h, slotsInFrame_host f h⟩
 
 /-- the generated obligation for the current tree -/
 theorem slots_in_frame_on_tree : slotsInFrame Gen.C12Frame.facts = true := by decide
